@@ -34,6 +34,21 @@ def gen_kw(rng):
 def gen_plan(rng, tier):
     P = rng.randint(2, 5)
     specs = [objs.gen_obs_spec(rng, nmin=rng.choice([5, 8, 8, 16]), nmax=rng.choice([12, 40, 64])) for _ in range(P)]
+    if rng.random() < 0.4 and P >= 2:
+        # two pool objects on sibling layouts (same endpoints and length, other holes), possibly under other ensemble names
+        import copy
+        src = specs[0]
+        sib = copy.deepcopy(src)
+        for part in sib["parts"]:
+            ren = rng.random() < 0.5
+            for ch in part["chains"]:
+                ch["idl"] = objs.sibling_idl(rng, ch["idl"])
+                ch["data"]["seed"] = rng.getrandbits(32)
+                if ren:
+                    e, _, r_ = ch["name"].partition("|")
+                    ch["name"] = ("Sb" + e) + ("|" + r_ if r_ else "")
+        sib.pop("cov", None)
+        specs[1] = sib
     ops = []
     n = rng.randint(8, 30)
     for _ in range(n):
